@@ -349,7 +349,7 @@ class Twin:
             if self.kids(e):
                 errs.append((cls, member, "children-in-simple-content"))
                 return
-            s = e.text or ""
+            s = (e.text or "") + "".join(c.tail or "" for c in e)      # comments / PIs inside character data
             if k == "str":
                 self.facets(ty[1], s, cls, member, errs, queries)
             elif k == "enum":
@@ -518,7 +518,8 @@ class IndependentWriter:
     """canonical form -> documents.  Driven by: the flattened schema tables (member order, names, nesting, wrapper
     objects / elements, enum literal lists), aasgen.META (attribute kinds) and schemas.MEMBER (attribute -> name).
     knobs (dict): explicit_defaults_for ((class, attribute) or None), literal_style (tag -> style), shuffle (rng or None), xml_ws ('xs:boolean' | 'xs:base64Binary'),
-    xml_bool_num (bool), xml_prefix (None = default namespace, or a prefix)."""
+    xml_bool_num (bool), xml_prefix (None = default namespace, or a prefix),
+    xml_noise (rng or None: comments / processing instructions between children and inside character data)."""
 
     def __init__(self, t, knobs=None):
         self.t = t
@@ -749,6 +750,40 @@ class IndependentWriter:
             return self.E(name, v)
         raise KeyError((kind, k))
 
+    @staticmethod
+    def add_noise(root, rng):
+        """XML comments and processing instructions are no part of the content model: put some between the children
+        of elements with element content (the root included) and inside character data.  Character data is split only
+        where both parts are empty or hold a non-blank character (a blank-only part next to a comment is a blank text
+        node, which parsers configured to drop ignorable white space remove: known corner handled under C09)."""
+        from lxml import etree
+
+        def node():
+            if rng.random() < 0.7:
+                return etree.Comment(rng.choice([" generated by another tool ", "x", " a < b & c "]))
+            return etree.ProcessingInstruction("editor", 'fold="documents"')
+
+        def solid(part):
+            return part == "" or part.strip(" \t\r\n") != ""
+        n = 0
+        els = [e for e in root.iter() if isinstance(e.tag, str)]
+        for e in els:
+            kids = [k for k in e if isinstance(k.tag, str)]
+            if kids:
+                if e is root or rng.random() < 0.2:
+                    e.insert(rng.randint(0, len(kids)), node())
+                    n += 1
+            elif e.text and rng.random() < 0.12:
+                cuts = [i for i in range(len(e.text) + 1) if solid(e.text[:i]) and solid(e.text[i:])]
+                if cuts:
+                    i = rng.choice(cuts)
+                    c = node()
+                    c.tail = e.text[i:] or None
+                    e.text = e.text[:i] or None
+                    e.append(c)
+                    n += 1
+        return n
+
     def xml_env(self, canons):
         rt, rg = self.t["xsd"]["root"]
         from lxml import etree
@@ -760,6 +795,8 @@ class IndependentWriter:
                 for c in mine:
                     w.append(self.xobj(c, ty[2][1], ty[1]))
                 root.append(w)
+        if self.k.get("xml_noise"):
+            self.add_noise(root, self.k["xml_noise"])
         return root
 
 
@@ -789,3 +826,34 @@ def norm(c):
 
 def canon_of_store(store):
     return {o.id: norm(aasgen.canon(o)) for o in store}
+
+
+# ------------------------------------------------------------------------------------------------- mapping skeletons
+# The document the mapping prescribes for a store (IndependentWriter) and the document the SDK wrote must agree in every
+# member / element name, nesting position and string, except (a) the spelling of typed literals (judged separately
+# against the XSD lexical spaces) and (b) attributes holding their metamodel default, which may be written or left out.
+LITERAL_MEMBERS = {"value", "min", "max", "lastUpdate", "minInterval", "maxInterval"}
+DEFAULT_MEMBERS = {"kind", "orderRelevant"}
+
+
+def _key(x):
+    import json as _json
+    return _json.dumps(x, sort_keys=True, ensure_ascii=True)
+
+
+def jskel(d, member=""):
+    if isinstance(d, dict):
+        return {k: jskel(v, k) for k, v in d.items() if k not in DEFAULT_MEMBERS}
+    if isinstance(d, list):
+        return sorted((jskel(x, member) for x in d), key=_key)
+    if isinstance(d, str):
+        return "<literal>" if member in LITERAL_MEMBERS else d
+    return d
+
+
+def xskel(e):
+    kids = [k for k in e if isinstance(k.tag, str)]
+    tag = Twin.tag(e)
+    if kids:
+        return {"tag": tag, "kids": sorted((xskel(k) for k in kids if Twin.tag(k) not in DEFAULT_MEMBERS), key=_key)}
+    return {"tag": tag, "text": "<literal>" if tag in LITERAL_MEMBERS else (e.text or "")}
